@@ -7,7 +7,7 @@ import tlc as T
 from smtlib import Table, SmtError, BOOL, INT, REAL
 from engine import TermReader
 
-DRIVER = os.path.join(C.VERIF, "build", "drivers", "rel", "tsolver_driver")
+DRIVER = os.path.join(C.BUILD, "drivers", "rel", "tsolver_driver")
 EXACT = {"QF_LRA", "QF_RDL", "QF_IDL", "QF_UF", "QF_UFLRA", "QF_UFRDL", "QF_UFIDL"}
 
 class Conv:
@@ -98,7 +98,7 @@ def tlc_sequences():
     if _seqs_cache is not None:
         return _seqs_cache
     import plans
-    cp = os.path.join(C.VERIF, "build", "mc_cache", "tsolver_seqs_%s.json" % plans.spec_hash(None))
+    cp = os.path.join(C.BUILD, "mc_cache", "tsolver_seqs_%s.json" % plans.spec_hash(None))
     os.makedirs(os.path.dirname(cp), exist_ok=True)
     if os.path.exists(cp):
         with open(cp) as f:
